@@ -3,6 +3,7 @@
 package main
 
 import (
+	"sync"
 	"runtime"
 	"bytes"
 	"fmt"
@@ -411,6 +412,37 @@ func genC01(c *Ctx) {
 		for _, k := range sourceScalars() {
 			emitKey("source-constant-keys", k)
 		}
+	}
+	// a fresh key pair used for the first time by several verifiers at once: each takes the public key from the
+	// private key and verifies the signature Sign returned (a public key handed out before it is complete rejects it)
+	for trial := 0; trial < 12; trial++ {
+		k := c.randScalar()
+		h := crypto.NewExpandMsgXOFKMAC128("first-use")
+		msg := c.bytes(20)
+		sig, _ := skFromInt(k).Sign(msg, h)
+		sk := skFromInt(k) // a second object: its public key has not been asked for yet
+		const G = 6
+		res := make([]string, G)
+		start := make(chan struct{})
+		var wg sync.WaitGroup
+		for g := 0; g < G; g++ {
+			wg.Add(1)
+			go func(g int) {
+				defer wg.Done()
+				hg := crypto.NewExpandMsgXOFKMAC128("first-use")
+				<-start
+				res[g] = guard(func() string { return boolAns(sk.PublicKey().Verify(sig, msg, hg)) })
+			}(g)
+		}
+		close(start)
+		wg.Wait()
+		verdict := "true"
+		for _, r := range res {
+			if r != "true" {
+				verdict = r + " (one of the concurrent first users)"
+			}
+		}
+		c.Case("verify/concurrent-first-use-of-key", "expect true #", verdict)
 	}
 	// fixed hashers: chosen 128-byte outputs including chunks >= p
 	ones := make([]byte, 128)
